@@ -23,6 +23,7 @@ ALL_ACTIONS = ['Write', 'SnapBegin', 'SnapWrite', 'SnapReplace', 'SnapClear', 'S
 DELETE_ACTIONS = ['DeleteCall', 'DeleteTombstone', 'DeleteCache', 'DeleteWAL', 'DeleteAck']
 DELETE_COMPACT_ACTIONS = ['DeleteProceed', 'CompactAbort']
 
+_NPOS = re.compile(r'\bn \|-> [1-9]')
 _ACT = re.compile(r'a \|-> "(\w+)"')
 _CFG_CONST = re.compile(r'^\s*(\w+)\s*=\s*(.+?)\s*$')
 
@@ -80,11 +81,13 @@ def histories(ctx, dump_path, *, want, budget_s, exact_leaves):
     t0 = time.time()
     texts = []
     lens = []
+    shapes = []
     last_actions = {}
     for t in iter_hist_texts(dump_path):
         texts.append(t)
         acts = _ACT.findall(t)
         lens.append(len(acts))
+        shapes.append(hash(tuple(acts)))
         if acts:
             last_actions[acts[-1]] = last_actions.get(acts[-1], 0) + 1
     n = len(texts)
@@ -93,10 +96,43 @@ def histories(ctx, dump_path, *, want, budget_s, exact_leaves):
     # number of distinct abstract states first reached by each action (vacuity guard of the generation run)
     stats = {'states_in_dump': n, 'max_history_len': max(lens), 'states_first_reached_by_action': last_actions}
     if not exact_leaves:
-        # candidates: the longest histories (at least 60% of the maximum length), sampled by seed
+        # candidates: long histories (at least 60% of the maximum length), pre-sampled by seed. A history may end in the
+        # middle of a snapshot / compaction / delete: the driver's epilogue judges it after the jobs ran to their end.
         thr = max(2, int(0.6 * max(lens)))
         idx = [i for i in range(n) if lens[i] >= thr]
-        chosen = vlib.sample_list(ctx.rng, idx, want * 2)
+        # pre-sample (parsing is the expensive part): round-robin over the distinct schedule shapes (sequence of action
+        # names), so that rare interleavings are not drowned by the many argument variations of common ones
+        # ... after first taking up to 60 histories of every class of "a step had an effect" flags (cheap text tests), so that
+        # the rare histories in which e.g. a partially tombstoned file is compacted are parsed at all
+        def flags(t):
+            lg = t.find('logged |-> TRUE')
+            return (('ptomb |-> TRUE' in t), lg >= 0, ('blocked |-> TRUE' in t), bool(_NPOS.search(t)),
+                    lg >= 0 and t.find('"Reopen"', lg) >= 0)
+        classes = {}
+        for i in idx:
+            classes.setdefault(flags(texts[i]), []).append(i)
+        first = []
+        for cl in sorted(classes):
+            first += vlib.sample_list(ctx.rng, classes[cl], 60)
+        stats['effect_classes'] = len(classes)
+        firstset = set(first)
+        groups = {}
+        for i in idx:
+            if i not in firstset:
+                groups.setdefault(shapes[i], []).append(i)
+        glist = list(groups.values())
+        ctx.rng.shuffle(glist)
+        for g in glist:
+            ctx.rng.shuffle(g)
+        chosen = list(first)
+        cap = max(want * 2, 3000)
+        depth = 0
+        while len(chosen) < cap and any(len(g) > depth for g in glist):
+            for g in glist:
+                if len(g) > depth and len(chosen) < cap:
+                    chosen.append(g[depth])
+            depth += 1
+        stats['schedule_shapes'] = len(glist)
         hs = [parse_hist(texts[i]) for i in chosen]
         keys = [json.dumps(h, separators=(',', ':'), sort_keys=True) for h in hs]
         prefixes = set()
@@ -104,8 +140,9 @@ def histories(ctx, dump_path, *, want, budget_s, exact_leaves):
             for k in range(1, len(h)):
                 prefixes.add(json.dumps(h[:k], separators=(',', ':'), sort_keys=True))
         out = [h for h, k in zip(hs, keys) if k not in prefixes]
-        out = vlib.sample_list(ctx.rng, out, want)
-        stats.update({'candidates': len(idx), 'selected': len(out), 'exact_leaves': False})
+        out, nfeat = select_covering(ctx.rng, out, want)
+        stats.update({'candidates': len(idx), 'parsed': len(hs), 'selected': len(out), 'features_covered': nfeat,
+                      'exact_leaves': False})
         return out, stats
     # thorough: parse everything within the budget (longest first, so that what is cut off are short prefixes)
     order = sorted(range(n), key=lambda i: -lens[i])
@@ -116,16 +153,104 @@ def histories(ctx, dump_path, *, want, budget_s, exact_leaves):
         if time.time() - t0 > budget_s:
             break
         h = parse_hist(texts[i])
+        texts[i] = None
         parsed += 1
         k = json.dumps(h, separators=(',', ':'), sort_keys=True)
         if len(h) > 1:
-            seen_prefix.add(json.dumps(h[:-1], separators=(',', ':'), sort_keys=True))
-        hs.append((k, h))
-    leaves = [h for k, h in hs if k not in seen_prefix]
+            seen_prefix.add(hash(json.dumps(h[:-1], separators=(',', ':'), sort_keys=True)))
+        hs.append(k)        # keep the compact JSON only: hundreds of thousands of parsed histories would not fit comfortably
+    leaves = [json.loads(k) for k in hs if hash(k) not in seen_prefix]
+    hs = None
     stats.update({'parsed': parsed, 'leaves': len(leaves), 'exact_leaves': parsed == n})
-    out = vlib.sample_list(ctx.rng, leaves, want)
+    out, nfeat = select_covering(ctx.rng, leaves, want)
     stats['selected'] = len(out)
+    stats['features_covered'] = nfeat
     return out, stats
+
+
+_STRUCT = ('SnapBegin', 'SnapWrite', 'SnapReplace', 'SnapClear', 'SnapWALRemove', 'CompactStart', 'CompactMerge', 'CompactReplace',
+           'Reopen')
+
+
+def features(h):
+    """Schedule features of a history, used to pick a sample that covers every feature that occurs at all:
+    ordered pairs of actions; per overwrite of a (key, time): which structural steps lie between the two writes; per delete:
+    how much of its series it removes (none / part / all), whether it had to wait for a compaction, and which structural
+    steps precede, overlap and follow it."""
+    fs = set()
+    names = [st['a'] for st in h]
+    first = {}
+    for i, a in enumerate(names):
+        first.setdefault(a, i)
+    last = {a: i for i, a in enumerate(names)}
+    for a in first:
+        for b in last:
+            if first[a] < last[b]:
+                fs.add(('ord', a, b))
+    lastw = {}
+    for i, st in enumerate(h):
+        for p in st.get('pts') or []:
+            k = (p[0], p[1])
+            if k in lastw:
+                fs.add(('ow', tuple(sorted({names[x] for x in range(lastw[k] + 1, i) if names[x] in _STRUCT}))))
+            lastw[k] = i
+        # steps that did something (the spec's records say how much): which structural steps follow them
+        a = st['a']
+        if (a in ('DeleteTombstone', 'DeleteCache') and st.get('n', 0) > 0) or (a == 'DeleteWAL' and st.get('logged')) \
+                or (a == 'CompactMerge' and st.get('ptomb')):
+            fs.add(('effect', a, tuple(sorted({names[x] for x in range(i + 1, len(h)) if names[x] in _STRUCT}))))
+        if st['a'] == 'DeleteCall' and i > 0:
+            before = h[i - 1]['exp']['m'][st['k'] - 1]
+            hit = [p for p in before if st['lo'] <= p[0] <= st['hi']]
+            shape = 'none' if not hit else ('all' if len(hit) == len(before) else 'part')
+            ack = next((j for j in range(i, len(h)) if names[j] == 'DeleteAck'), len(h))
+            pre = tuple(sorted({names[x] for x in range(0, i) if names[x] in _STRUCT}))
+            mid = tuple(sorted({names[x] for x in range(i, ack) if names[x] in _STRUCT}))
+            post = tuple(sorted({names[x] for x in range(ack, len(h)) if names[x] in _STRUCT}))
+            fs.add(('del', shape, bool(st.get('blocked')), mid))
+            fs.add(('del-pre', shape, pre))
+            fs.add(('del-post', shape, post))
+    return fs
+
+
+def select_covering(rng, hs, want, mult=3):
+    """greedy multi-cover: every feature that occurs at all gets (up to) `mult` histories exhibiting it, best gain first;
+    then a seeded random fill up to `want`"""
+    if len(hs) <= want:
+        allf = set()
+        for h in hs:
+            allf |= features(h)
+        return list(hs), len(allf)
+    ids = {}
+    feats = []
+    for h in hs:
+        feats.append(frozenset(ids.setdefault(f, len(ids)) for f in features(h)))
+    order = list(range(len(hs)))
+    rng.shuffle(order)
+    need = [mult] * len(ids)
+    open_feats = set(range(len(ids)))
+    picked = []
+    pickedset = set()
+    while len(picked) < want and open_feats:
+        best, gain = None, 0
+        for i in order:
+            if i in pickedset:
+                continue
+            g = len(feats[i] & open_feats)
+            if g > gain:
+                best, gain = i, g
+        if best is None:
+            break
+        picked.append(best)
+        pickedset.add(best)
+        for f in feats[best]:
+            if need[f] > 0:
+                need[f] -= 1
+                if need[f] == 0:
+                    open_feats.discard(f)
+    rest = [i for i in order if i not in pickedset]
+    picked += rest[:max(0, want - len(picked))]
+    return [hs[i] for i in sorted(picked)], len(ids)
 
 
 def require_actions(stats, actions):
@@ -147,6 +272,22 @@ def replay_one(ctx, prop, mc_cfg):
     ctx.absorb(res, lines)
     ctx.rule = 'replay of one stored case: ' + os.path.basename(ctx.replay_path)
     ctx.assumptions += ASSUMPTIONS
+
+
+_OPEN = {'SnapBegin': 'snap', 'CompactStart': 'comp', 'DeleteCall': 'del', 'CacheWrite': 'write'}
+_CLOSE = {'SnapWALRemove': 'snap', 'CompactReplace': 'comp', 'CompactAbort': 'comp', 'DeleteAck': 'del', 'WriteAck': 'write'}
+
+
+def quiescent_end(h):
+    """no snapshot / compaction / delete / write job is in flight after the last step of history h"""
+    open_jobs = set()
+    for st in h:
+        a = st['a']
+        if a in _OPEN:
+            open_jobs.add(_OPEN[a])
+        elif a in _CLOSE:
+            open_jobs.discard(_CLOSE[a])
+    return not open_jobs
 
 
 def make_cases(prop, behaviours, nkeys, ntimes, concs):
